@@ -307,7 +307,8 @@ def run(pp, rep):
             small = shrink(p, still, budget=80)
             found = None
             # neighbourhood search: wrap / vary the disagreeing pipeline and ask the oracle
-            cand = [small] + unary_menu(small, hint_len(small))
+            # every case on which model and code disagree is a candidate first, then their neighbourhood
+            cand = [q for q, _ in disagreements[:200]] + [small] + unary_menu(small, hint_len(small))
             for s in small_sources():
                 for q in unary_menu(s, hint_len(s)):
                     if q['op'] == small['op']:
